@@ -58,7 +58,7 @@ CallsOK(e, Fr, Gr) ==
 \* codes mean the same string. Operations that go by the code (comparisons, sorting, grouping, hashing)
 \* are not specified on such a frame; those that go by the strings are (C09: Equals, views, writers).
 AmbFrame(f) == ~f.err /\ ~IsUnspec(f) /\ \E c \in 1..Len(f.cols) : f.cols[c].typ = "enum" /\ HasDup(f.cols[c].vals)
-AmbSafeOps == {"New", "Select", "Drop", "Slice", "Copy", "WithRowNums", "Rebuild", "Apply", "Equals", "SliceObs",
+AmbSafeOps == {"New", "Select", "Drop", "Slice", "Copy", "Rolling", "WithRowNums", "Rebuild", "Apply", "Equals", "SliceObs",
                "Scribble", "View", "ToCSV", "ToJSON", "String", "ReadCSV", "ReadJSON", "CsvScan", "ReadSQL", "QFrames", "Aggregate"}
 AmbRes(e) ==
   IF e.op = "GroupBy" THEN Res(TRUE, FALSE, TRUE, <<>>, <<>>, <<ErrGrouper>>, <<e.gdig>>)
@@ -72,6 +72,7 @@ JudgeOp1(e, Fr, Gr) ==
     [] e.op = "Drop"   -> Det(e, DropSem(R, e.a.cols))
     [] e.op = "Slice"  -> Det(e, SliceSem(R, e.a.a, e.a.b))
     [] e.op = "Copy"   -> Det(e, CopySem(R, e.a.dst, e.a.src))
+    [] e.op = "Rolling" -> Det(e, RollingSem(R, e.a))
     [] e.op = "Filter" -> Det(e, FilterSem(R, e.a.clause))
     [] e.op = "Sort"   -> IF TooBig(R, Rid(e)) THEN TooBigRes(e) ELSE Rel(e, R, SortPost(R, e.a.orders, e.obs, Rid(e)))
     [] e.op = "Distinct" -> IF TooBig(R, Rid(e)) THEN TooBigRes(e)
